@@ -12,3 +12,15 @@ func pptOptionsToDetails(options wamp.Dict, details wamp.Dict) {
 		}
 	}
 }
+
+// endSession ends a session that violated the protocol, after an ABORT was
+// queued for it. The session's peer must not be closed from the broker or
+// dealer: its message handler still uses it and closes it itself when it exits.
+// The handler is told to stop instead; it then removes the session from the
+// realm like any other session that ended.
+func endSession(sess *wamp.Session) {
+	sess.EndRecv(&wamp.Goodbye{
+		Reason:  wamp.ErrProtocolViolation,
+		Details: wamp.Dict{},
+	})
+}
